@@ -152,7 +152,10 @@ class Real:
                 self.csched.load_state_dict(self.saved[1])
             return self.live()
         if op in ("opt", "vopt"):
-            x = torch.tensor([[3000.0, -4000.0, 0.0]], dtype=torch.float64)  # |g| = 5000 >> C
+            # |g| = 5000 * scale, always well above the live bound (a scheduler may have grown it past 5000)
+            cl = float(self.live()[1])
+            scale = 1.0 if not (4 * cl > 5000.0) or cl == float("inf") else 2.0 ** math.ceil(math.log2(8 * cl / 5000.0))
+            x = torch.tensor([[3000.0 * scale, -4000.0 * scale, 0.0]], dtype=torch.float64)
             w = self.model._module.fc.weight
             with rig.patched_normal("zero") as log:
                 if op == "vopt":
@@ -165,7 +168,7 @@ class Real:
                 self.opt.step()
             # what THIS physical batch added to the clipped sum
             g = (w.summed_grad.detach() - prev).reshape(-1)
-            used_clip = float(g.norm()) * (5000.0 + 1e-6) / 5000.0
+            used_clip = float(g.norm()) * (5000.0 * scale + 1e-6) / (5000.0 * scale)
             if op == "vopt":
                 assert sum(h[2] for h in self.acct.history) == n_hist and not log.calls, "a skipped physical batch was noised / accounted"
                 return self.live() + [used_clip]
